@@ -407,6 +407,46 @@ def shard_shipped(ctx, arg):
             ctx.sig("shipped", which, *sig_of(ref))
 
 
+def shard_big(ctx, arg):
+    """one DEX with many methods (code section far larger than one I/O buffer), written at several 4-byte shifts: what is reported for a method must not
+    depend on where its bytes lie in the file"""
+    which, idx, nmeth, shifts = arg
+    from androguard.core import dex
+    from androguard.core.analysis.analysis import Analysis
+    rng = ctx.rng("blocks-big", idx)
+    ms = [cfg.gen_method(rng, allow_new=False, max_tries=6, clause_counts=(0, 1, 2, 3, 4, 5, 7, 9)) for j in range(nmeth)]
+    for sh in range(shifts):
+        # the first code item grows by four bytes per step (moves every later code item relative to the start of the code section), unused strings move
+        # the whole data area
+        data, w, names = cfg.make_dex(ms, pad_strings=sh % 3, front_nops=2 * sh)
+        ctx.count("big_dex_files")
+        ctx.count("big_dex_bytes", len(data))
+        try:
+            dx = dex.DEX(data)
+            an = Analysis(dx)
+        except Exception as e:
+            ctx.violation("analysis-raises", "DEX()/Analysis() raises on generated valid code (large file)", {"exc": exc_str(e), "methods": nmeth, "shift": sh})
+            continue
+        for m, nm in zip(ms, names):
+            if m.features["misaligned"]:
+                continue
+            em = dx.get_encoded_methods_class_method(cfg.CLS, nm)
+            ma = an.get_method(em)
+            units = w.code_units[(cfg.CLS, nm, "V", ())][1]
+            tries = [(t.start, t.count, t.handlers, t.catch_all) for t in m.tries]
+            try:
+                ref = ref_cfg(units, tries)
+            except Exception as e:
+                ctx.inconclusive("reference CFG failed on generated code: %s" % exc_str(e))
+                continue
+            ref.tries_in_file_order = list(ref.tries)
+            ctx.ev()
+            ctx.count("big_dex_methods")
+            wit = {"units": ["%04x" % u for u in units][:250], "tries": [(a, b, hs[:6]) for a, b, hs in ref.tries], "features": m.features,
+                   "history": "method %s of %d in a %d-byte DEX, shift %d" % (nm, nmeth, len(data), sh * 4)}
+            check_method(ctx, which, dex, dx, ma, em, ref, wit)
+
+
 def dispatch(ctx, arg):
     globals()[arg[0]](ctx, arg[1])
 
@@ -424,6 +464,7 @@ def run(ctx, which):
     files = sorted(glob.glob("/repo/tests/data/APK/*.dex"))
     files = [f for f in files if os.path.getsize(f) < (1000000 if ctx.quick else 10 ** 9)]
     args += [["shard_shipped", [which, f]] for f in files]
+    args += [["shard_big", [which, i, 150, 32 if ctx.quick else 64]] for i in range(8 if ctx.quick else 16)]
     ctx.run_shards(MOD, "dispatch", args, timeout=3000)
     ctx.require_counter("shipped_methods", 100)
     ctx.min_distinct = 10
